@@ -152,4 +152,36 @@ def wellFormed (route reads : List (Kind × Nat)) (asserts : List (Kind × Kind)
   route.all (fun e => e.2 < chans.length) && reads.all (fun e => e.2 < chans.length) &&
   chans.all (fun c => c.2 == some 1)
 
+/-! ### Before `Open()`: the wrappers `UDFProcess` / `UDFSocket` (udf.go)
+
+They create their `udf.Server` only in `Open()`, which `UDFNode.runUDF` calls on the node goroutine. Two callers
+run CONCURRENTLY with that start: the task's snapshotter (`Snapshot()`, no recover on that goroutine) and whoever
+stops the task (`UDFNode.stopUDF` → `Abort()`). `Init`/`Restore`/`In`/`Out` are only called by `runUDF` itself after
+its `Open()`, `Info` by the UDF service on an object it opened itself. A method called on the missing server is a
+nil dereference unless the wrapper checks for it (`guard…` = it does: extracted). -/
+
+inductive Wrapper where
+  | processSnapshot | processAbort | socketSnapshot | socketAbort
+deriving DecidableEq, Repr, Inhabited
+
+inductive WEv where
+  | opened | snapshot | abort
+deriving DecidableEq, Repr, Inhabited
+
+inductive WRes where
+  | ok | err | trap
+deriving DecidableEq, Repr, Inhabited
+
+/-- what each call comes to; the Bool is "Open() has published the server". -/
+def wrapper (guardSnapshot guardAbort : Bool) : Bool → List WEv → List WRes
+  | _, [] => []
+  | _, .opened :: es => .ok :: wrapper guardSnapshot guardAbort true es
+  | o, .snapshot :: es =>
+    (if o then .ok else if guardSnapshot then .err else .trap) :: wrapper guardSnapshot guardAbort o es
+  | o, .abort :: es =>
+    (if o || guardAbort then .ok else .trap) :: wrapper guardSnapshot guardAbort o es
+
+def guardOf (gs : List (Wrapper × Bool)) (w : Wrapper) : Bool :=
+  (gs.filter (fun e => e.1 == w)).length == 1 && gs.all (fun e => e.1 != w || e.2)
+
 end Kap.C05.Rr
